@@ -256,13 +256,13 @@ var entryPoints = []string{
 	"SubDirectories",
 	"Copy/new-dest", "Copy/existing-dest",
 	"CopyBetweenFS/new-dest", "CopyBetweenFS/existing-dest",
-	"Zip/nolimits", "Zip/limits",
+	"Zip/nolimits", "Zip/limits", "Zip/tightlimits",
 	"Remove",
 	"CleanDir",
 }
 
 // weights: the state-changing entry points are drawn more often
-var epWeights = []int{3, 2, 2, 2, 1, 1, 3, 2, 3, 3, 2, 2, 3, 2, 5, 5}
+var epWeights = []int{3, 2, 2, 2, 1, 1, 3, 2, 3, 3, 2, 2, 3, 2, 2, 5, 5}
 
 type caseSpec struct {
 	Index    int            `json:"index"`
@@ -335,6 +335,10 @@ func genCase(r *vrun.Run, idx int) caseSpec {
 		np := pickWeighted(rng, []int{8, 40, 32, 20})
 		for k := 0; k < np; k++ {
 			c.Patterns = append(c.Patterns, genValidPattern(rng, names))
+		}
+		if np > 0 && rng.IntN(10) == 0 {
+			at := rng.IntN(len(c.Patterns))
+			c.Patterns = append(c.Patterns[:at], append([]string{""}, c.Patterns[at:]...)...)
 		}
 		// Patterns with '.', '.*' or a negated class can match ACROSS a path separator when applied to a joined path although
 		// no single component contains a match. They are generated for the entry points that the property lets us judge
@@ -589,7 +593,15 @@ func runCase(r *vrun.Run, c caseSpec, scratch string) {
 	// --- compile the patterns the way the property defines them
 	var full, contains []*regexp.Regexp
 	invalid := false
+	hasEmpty := false
 	for _, p := range c.Patterns {
+		if p == "" {
+			// The empty pattern names nothing (no name is matched in full by it). As a regular expression it matches
+			// inside every name, so by the letter nothing must be processed any more: the must-process side is not
+			// judged for such sets, the must-protect side of the other patterns is.
+			hasEmpty = true
+			continue
+		}
 		re, err := regexp.Compile(p)
 		if err != nil {
 			invalid = true
@@ -627,6 +639,24 @@ func runCase(r *vrun.Run, c caseSpec, scratch string) {
 		defer sec.cleanup()
 	}
 	src := filepath.Join(prim.sb, c.SrcName)
+	tightLimit, enlarged := int64(0), 0
+	if variant == "tightlimits" && !invalid {
+		// the per-file limit sits on the largest file that is not protected; every protected file is larger than it
+		pre := classify(c.Nodes, full, contains)
+		tightLimit = 16384 // directories are measured too (their inode size): stay above it
+		for i, e := range pre {
+			if e.Kind == "file" && e.Cls != clsProtect && int64(c.Nodes[i].Size) > tightLimit {
+				tightLimit = int64(c.Nodes[i].Size)
+			}
+		}
+		for i, e := range pre {
+			if e.Kind == "file" && e.Cls == clsProtect {
+				c.Nodes[i].Size = int(tightLimit) + 1 + i%50
+				c.Nodes[i].Content = contentFor(c.Nodes[i].Path, c.Nodes[i].Size)
+				enlarged++
+			}
+		}
+	}
 	prim.materialise(r, src, c.Nodes)
 	destBE := prim
 	if cross {
@@ -680,7 +710,7 @@ func runCase(r *vrun.Run, c caseSpec, scratch string) {
 
 	ctx, cancel := context.WithTimeout(context.Background(), 120*time.Second)
 	defer cancel()
-	out := invoke(ctx, c, cls, variant, prim, destBE, src, dest, arc)
+	out := invoke(ctx, c, cls, variant, prim, destBE, src, dest, arc, tightLimit)
 
 	after := prim.snapshot(r)
 	var afterSec snap.Snap
@@ -819,6 +849,13 @@ func runCase(r *vrun.Run, c caseSpec, scratch string) {
 	if r.WantSample() && nontrivial && c.Index%13 == 5 {
 		r.Sample(map[string]any{"case": c, "result": fmt.Sprint(out.err)})
 	}
+	if variant == "tightlimits" && enlarged > 0 {
+		r.Obs("zip_cases_whose_only_oversize_files_are_protected", 1)
+		if out.err != nil && commonerrors.Any(out.err, commonerrors.ErrTooLarge) {
+			r.Violation(vrun.Sig{"ep": cls, "side": "protect", "effect": "limit-applied-to-a-protected-entry"},
+				fmt.Sprintf("%s with patterns %q and a per-file limit of %d bytes fails with %v although only protected files (which are not to be archived) exceed the limit (backend %s)", c.EP, c.Patterns, tightLimit, out.err, c.Backend), witness(nil))
+		}
+	}
 	if out.err != nil {
 		// The property does not say that the operation succeeds; a failure cannot be judged on the
 		// must-process side. The must-protect side is still checked below.
@@ -828,7 +865,10 @@ func runCase(r *vrun.Run, c caseSpec, scratch string) {
 	if out.cbErrors > 0 {
 		r.Inconclusive("walk callback received an error (must-process side not judged)")
 	}
-	judgeProcess := out.err == nil && out.cbErrors == 0
+	judgeProcess := out.err == nil && out.cbErrors == 0 && !hasEmpty
+	if hasEmpty {
+		r.Obs("cases_with_an_empty_pattern_(must-protect_side_only)", 1)
+	}
 
 	var protJudged, procJudged int64
 	firstProt, firstProc := true, true
@@ -974,7 +1014,7 @@ func firstWords(s string, n int) string {
 }
 
 // invoke calls the entry point and collects what it reported / produced as tree-relative slash paths.
-func invoke(ctx context.Context, c caseSpec, cls, variant string, prim, destBE *backend, src, dest, arc string) (out outcome) {
+func invoke(ctx context.Context, c caseSpec, cls, variant string, prim, destBE *backend, src, dest, arc string, tightLimit int64) (out outcome) {
 	out.reported = map[string]bool{}
 	fs := prim.vfs
 	addAbs := func(p string) {
@@ -1060,6 +1100,9 @@ func invoke(ctx context.Context, c caseSpec, cls, variant string, prim, destBE *
 		limits := filesystem.NoLimits()
 		if variant == "limits" {
 			limits = generousLimits()
+		}
+		if variant == "tightlimits" && tightLimit > 0 {
+			limits = filesystem.NewLimits(tightLimit, 1<<40, 1<<30, 1000, false)
 		}
 		out.err = fs.ZipWithContextAndLimitsAndExclusionPatterns(ctx, src, arc, limits, c.Patterns...)
 		b, err := afero.ReadFile(prim.base, arc)
